@@ -53,6 +53,10 @@ const CORPUS: &[(&str, &str)] = &[
         "list on the right of a plain assignment, never reached",
         "Say \"start\"\nIf false\nLet Total be 1, 2, 3\n\nPut 4 into Total\nSay Total\n",
     ),
+    (
+        "push onto a variable that holds a number",
+        "Put 5 into Solo\nRock Solo with 6\nSay Solo\nPut \"text\" into Duo\nRock Duo with 1, 2\nSay Duo\n",
+    ),
     ("empty", ""),
     ("only blank lines", "\n\n\n"),
     ("hello", "Say \"Hello, World!\"\n"),
@@ -115,6 +119,8 @@ struct WorldSpec {
     removed_cwd: bool,
     /// (standard input is a terminal, standard output is a terminal)
     tty: (bool, bool),
+    /// standard error is a terminal
+    stderr_tty: bool,
     file_via: FileVia,
     sub: Sub,
     usage: Usage,
@@ -239,6 +245,20 @@ fn gen_world(t: &mut Tape) -> WorldSpec {
         pre.extend_from_slice(&source);
         source = pre;
     }
+    // a said value with a line break in it and a long run of text after the
+    // last break (how a line-buffered standard output treats it)
+    if t.chance(1, 25) {
+        source_kind = "corpus";
+        loop_free = true;
+        let base = [1024usize, 1024, 8192, 65536][t.draw(4) as usize];
+        let tail: String = (0..(base - 1 + t.draw(3) as usize)).map(|k| (b'a' + (k % 23) as u8) as char).collect();
+        source = if t.chance(1, 2) {
+            format!("Say \"first\nsecond\n{}\"\nSay \"end\"\n", tail)
+        } else {
+            format!("Cast 10 into Newline\nPut \"{}\" into Tail\nSay \"head\" plus Newline plus Tail\nSay \"end\"\n", tail)
+        }
+        .into_bytes();
+    }
     // long error messages full of multi-byte characters (whatever is done to
     // an error text - wrapping, shortening - meets a character boundary)
     if t.chance(1, 25) {
@@ -351,12 +371,15 @@ fn gen_world(t: &mut Tape) -> WorldSpec {
     // terminal worlds: standard input and/or standard output is a
     // pseudo-terminal (interactive use); input is kept to short plain lines
     let mut tty = (false, false);
+    let mut stderr_tty = false;
     if usage == Usage::Normal
         && matches!(fault, FileFault::None | FileFault::Empty)
         && file_via != FileVia::DevStdinPipe
         && t.chance(1, 9)
     {
-        tty = [(true, false), (false, true), (true, true)][t.draw(3) as usize];
+        // (with the third kind standard error is the only terminal)
+        tty = [(true, false), (false, true), (true, true), (false, false)][t.draw(4) as usize];
+        stderr_tty = tty == (false, false) || t.chance(1, 3);
         if tty.0 {
             stdin = (*t.pick(&[
                 "alpha\nbeta gamma\n\nd\u{e9}j\u{e0} vu\nlast\n",
@@ -372,6 +395,7 @@ fn gen_world(t: &mut Tape) -> WorldSpec {
     }
     let relative_path = t.chance(1, 2);
     let removed_cwd = tty == (false, false)
+        && !stderr_tty
         && !relative_path
         && file_via != FileVia::DevStdinPipe
         && std::path::Path::new("/bin/sh").exists()
@@ -382,6 +406,7 @@ fn gen_world(t: &mut Tape) -> WorldSpec {
     if usage == Usage::Normal
         && fault == FileFault::None
         && tty == (false, false)
+        && !stderr_tty
         && !removed_cwd
         && file_via != FileVia::DevStdinPipe
         && sub == Sub::Exec
@@ -403,6 +428,7 @@ fn gen_world(t: &mut Tape) -> WorldSpec {
         stalled_reader,
         removed_cwd,
         tty,
+        stderr_tty,
         file_via,
         sub,
         usage,
@@ -666,6 +692,18 @@ fn judge(w: &WorldSpec, lib: &Result<LibRef, String>, sep: &ProcResult, shared: 
             }
         }
     }
+    // R8 what lint and parse print into a standard output that is not a
+    // terminal is text: no terminal escape sequences (unless forced)
+    if w.sub != Sub::Exec
+        && !w.tty.1
+        && !w.env.iter().any(|(k, _)| k == "CLICOLOR_FORCE")
+        && strip_sgr(&sep.stdout) != sep.stdout
+    {
+        return Some((
+            "C20.R8-no-escape-sequences-in-redirected-output",
+            "standard output is not a terminal and colour is not forced, but what the tool printed there contains terminal escape sequences".into(),
+        ));
+    }
     // R3 errors come after all output produced before them (shared file
     // description: the file's byte order is the order of the writes)
     if let Some(c) = &shared.combined {
@@ -823,12 +861,12 @@ impl Property for C20 {
             stats.inc("fault.fired.stdout_reader_stalled");
             let a = procworld::run(&spec, &scratch, "stalled");
             (a.clone(), a)
-        } else if w.tty != (false, false) {
-            match procworld::run_pty(&spec, &scratch, "pty", w.tty.0, w.tty.1) {
+        } else if w.tty != (false, false) || w.stderr_tty {
+            match procworld::run_pty(&spec, &scratch, "pty", w.tty.0, w.tty.1, w.stderr_tty) {
                 Ok(Some(r)) => {
                     stats.inc(&format!(
-                        "count.terminal_world.stdin_tty={}.stdout_tty={}",
-                        w.tty.0, w.tty.1
+                        "count.terminal_world.stdin_tty={}.stdout_tty={}.stderr_tty={}",
+                        w.tty.0, w.tty.1, w.stderr_tty
                     ));
                     (Ok(r.clone()), Ok(r))
                 }
@@ -962,6 +1000,7 @@ impl Property for C20 {
                 ("stdout_reader_stalled_800ms", J::Bool(w.stalled_reader)),
                 ("stdin_is_terminal", J::Bool(w.tty.0)),
                 ("stdout_is_terminal", J::Bool(w.tty.1)),
+                ("stderr_is_terminal", J::Bool(w.stderr_tty)),
                 ("source_kind", J::s(w.source_kind)),
                 ("file_contents", J::S(render_bytes(&w.source))),
                 ("stdin_kind", J::s(format!("{:?}", w.stdin_kind))),
